@@ -74,8 +74,8 @@ fn run_case<const P: usize>(sh: &mut Shard, case: u64, rng: &mut Rng) {
     let descs: Vec<DeviceDesc> = (0..n)
         .map(|_| {
             let coe = coe_all || rng.chance(1, 4);
-            let o = PdOpts { coe, max_pdos: *rng.pick(&[0usize, 2, 4, 8]), max_sms_per_dir: if rng.chance(1, 3) { 2 } else { 1 }, contiguous: rng.bool(), fmmu_ex: rng.chance(1, 3) };
-            let mut d = gen_pd_desc(rng, &o);
+            let o = PdOpts { coe, max_pdos: *rng.pick(&[0usize, 2, 4, 8]), max_sms_per_dir: *rng.pick(&[1usize, 1, 1, 2, 2, 3]), contiguous: rng.bool(), fmmu_ex: rng.chance(1, 3) };
+            let mut d = if oversampling.is_none() && rng.chance(1, 8) { gen_pd_desc_three_sm(rng, coe, o.fmmu_ex) } else { gen_pd_desc(rng, &o) };
             if let Some(os) = oversampling {
                 d.oversampling = os.to_vec();
                 // re-place the buffers for the new lengths
@@ -105,6 +105,21 @@ fn run_case<const P: usize>(sh: &mut Shard, case: u64, rng: &mut Rng) {
             format!("{}{}{}", if d.coe_pdo { "coe" } else { "eeprom" }, if multi { "+multi-sm" } else { "" }, if d.fmmu_ex.is_empty() { "" } else { "+fmmu_ex" })
         })
         .collect();
+    for d in descs.iter() {
+        let pd: Vec<(usize, &SmDesc)> = d.sms.iter().enumerate().filter(|(i, s)| s.usage >= 3 && d.sm_pd_bytes(*i as u8) > 0).collect();
+        for u in [3u8, 4] {
+            let same: Vec<&(usize, &SmDesc)> = pd.iter().filter(|(_, s)| s.usage == u).collect();
+            if same.len() >= 3 {
+                sh.count("device.three-sms-one-direction");
+            }
+            if same.windows(2).any(|w| w[1].1.start < w[0].1.start) {
+                sh.count("device.sm-buffers-not-in-index-order");
+            }
+        }
+        if sm_adjacent_to_non_neighbour(d) {
+            sh.count("device.sm-adjacent-to-non-neighbour");
+        }
+    }
     let exp_in: Vec<usize> = descs.iter().map(|d| d.input_bytes()).collect();
     let exp_out: Vec<usize> = descs.iter().map(|d| d.output_bytes()).collect();
     let scenario = json!({"case": case, "devices": n, "groups": k, "max_pdi": P, "kinds": tags, "inputs": exp_in, "outputs": exp_out, "oversampling": format!("{oversampling:?}"), "op": to_op});
